@@ -443,6 +443,29 @@ def field_coverage(ctx, rep, clause):
                f'ignores it (e.g. the ^n multiplier is dropped)', ms.loc(node), clause)
 
 
+def value_text(ctx, rep, clause):
+    """Mod.serialize writes the value with str()/plain f-string formatting: no format spec, rounding or fixed
+    notation that could lose digits of a numeric shift"""
+    program = ctx.program
+    f = program.func('peptacular.proforma.proforma_dataclasses:Mod.serialize')
+    k = 0
+    bad = []
+    for n in ast.walk(f.node):
+        if isinstance(n, ast.FormattedValue) and 'val' in norm_stmt(n.value):
+            k += 1
+            if n.format_spec is not None:
+                bad.append(n)
+        if isinstance(n, ast.Call) and norm_stmt(n.func) in ('round', 'format') and n.args and 'val' in norm_stmt(n.args[0]):
+            bad.append(n)
+        if isinstance(n, ast.BinOp) and isinstance(n.op, ast.Mod) and isinstance(n.left, ast.Constant) and \
+                isinstance(n.left.value, str) and 'val' in norm_stmt(n.right):
+            bad.append(n)
+    ob(rep, 'TOK-value', f.fq, 'the modification value is written without a precision-limiting format', not bad and k > 0,
+       'str() / plain f-string', f'`{norm_stmt(bad[0])[:60] if bad else ""}` formats the value with a format spec or '
+       f'rounding: digits of a numeric shift are lost on serialisation and the text no longer parses back to the same '
+       f'value', f.loc(bad[0]) if bad else f.loc(), clause)
+
+
 def index_kinds(ctx, rep, clause):
     """interval bounds are Boundaries (0..n), residue modifications are Positions (0..n-1), on both sides"""
     program = ctx.program
@@ -500,4 +523,5 @@ def check(ctx, rep):
                                                                           'peptacular.mass_calc')}
     n = add_fwd(rep, forwarding(an, program, ['include_plus'], callers=callers), 'C01c')
     rep.floor('FWD', 'include_plus forwarding sites', n, 25)
+    value_text(ctx, rep, 'C01a')
     index_kinds(ctx, rep, 'C01d')
